@@ -392,6 +392,22 @@ Qed.
 Theorem cov_code_is_spec X i j : cov_code X i j == cov_spec X i j.
 Proof. unfold cov_code, cov_spec, Qdiv. ring. Qed.
 
+(* the reducing evaluation used by the checker is the same rational *)
+Lemma mean_r_plain X i : mean_r X i == mean_col X i.
+Proof. unfold mean_r, mean_col. rewrite Qred_correct, qsumr_qsum. reflexivity. Qed.
+
+Lemma dev_r_plain X r i : dev_r X r i == dev X r i.
+Proof. unfold dev_r, dev. rewrite Qred_correct, mean_r_plain. reflexivity. Qed.
+
+Lemma sumprod_r_plain X i j : sumprod_r X i j == sumprod X i j.
+Proof.
+  unfold sumprod_r, sumprod. rewrite qsumr_qsum. apply qsum_ext_all. intros r.
+  rewrite Qred_correct, !dev_r_plain. reflexivity.
+Qed.
+
+Theorem cov_eval_is_code X i j : cov_eval X i j == cov_code X i j.
+Proof. unfold cov_eval, cov_code. rewrite Qred_correct, sumprod_r_plain. reflexivity. Qed.
+
 Lemma sumprod_sym X i j : sumprod X i j == sumprod X j i.
 Proof. unfold sumprod. apply qsum_ext_all. intros r. ring. Qed.
 
